@@ -233,9 +233,82 @@ def r4(ctx, facts):
     r.instance("pick_predicate-wraps-is_alive", ok and found > 0, "every DefaultPolicy is built with a pick_predicate that includes Self::is_alive (%d construction sites)" % found)
 
 
+def _pred_class(facts, cg, cp, cache):
+    """'alive' / 'down' for a bool predicate closure: does it consult liveness or only the host filter (is_enabled)?"""
+    if cp in cache:
+        return cache[cp]
+    cb = facts.body(cp)
+    res = None
+    if cb is not None and cb.local_ty(0) == "bool":
+        names = set()
+        for q in set(cg.reachable([cp]).keys()) | {cp}:
+            pb = facts.body(q)
+            for bb2, c in pb.calls():
+                if bb2 in pb.live_blocks:
+                    names.add(c.name or c.decl or "")
+            for bb2 in pb.live_blocks:
+                t = pb.term(bb2)
+                if t[0] == "call" and ("pick_predicate" in str(t[2]) or (t[1].get("def", "").endswith("Fn::call") and "pick_predicate" in str(pb.stmts(bb2)))):
+                    names.add("pick_predicate")
+        if "pick_predicate" in names or any(n.endswith(("DefaultPolicy::is_alive", "Node::is_connected")) for n in names):
+            res = "alive"
+        elif any(n.endswith("Node::is_enabled") for n in names):
+            res = "down"
+    cache[cp] = res
+    return res
+
+
+def r5(ctx, facts):
+    r = ctx.rule("R5", "nodes believed down are only named after every live candidate (pick and fallback)", floor=6)
+    cg = CallGraph(facts)
+    cache = {}
+    # pick(): a selection with a liveness predicate is never attempted after a selection that accepts down nodes
+    b = method_bodies(facts, "pick")[0]
+    sites = []
+    for bb in sorted(b.live_blocks):
+        for s in b.stmts(bb):
+            if s[0] == "A" and s[2][0] == "agg" and s[2][1][0] == "closure":
+                k = _pred_class(facts, cg, s[2][1][1], cache)
+                if k:
+                    sites.append((bb, k, s))
+    downs = [x for x in sites if x[1] == "down"]
+    alives = [x for x in sites if x[1] == "alive"]
+    if not downs or not alives:
+        raise AnchorLost("pick(): liveness / enabled-only predicates not found (%d/%d)" % (len(alives), len(downs)))
+    for i, (abb, _, st) in enumerate(alives):
+        late = [d for d in downs if abb in b.reachable_from(d[0]) and abb != d[0]]
+        r.instance("pick:live-selection-before-down#%d" % i, not late,
+                   "pick() tries a selection restricted to live nodes after it already tried one that accepts down nodes (at %s): a down node can be picked while a live one is eligible"
+                   % ", ".join(str(b.stmt_span(d[2])) for d in late), b.stmt_span(st))
+    # fallback(): in every chain(left, right), once `left` may contain down nodes, `right` contains no liveness-filtered group
+    fb = method_bodies(facts, "fallback")[0]
+
+    def classes(op):
+        locs, _, _ = backward_slice(fb, op)
+        out = set()
+        for l in locs:
+            for d in fb.defs.get(l, []):
+                if d[0] == "stmt" and d[3][0] == "agg" and d[3][1][0] == "closure":
+                    k = _pred_class(facts, cg, d[3][1][1], cache)
+                    if k:
+                        out.add(k)
+        return out
+    chains = fb.calls_to("core::iter::traits::iterator::Iterator::chain")
+    if not chains:
+        raise AnchorLost("fallback(): no Iterator::chain calls")
+    n_down = 0
+    for i, c in enumerate(sorted(chains, key=lambda c: (c.span.line, c.bb))):
+        lc, rc = classes(c.args[0]), classes(c.args[1])
+        if "down" in lc or "down" in rc:
+            n_down += 1
+        r.instance("fallback:chain#%d" % i, not ("down" in lc and "alive" in rc),
+                   "fallback() chains a liveness-filtered group after a group that may contain down nodes (left: %s, right: %s)" % (sorted(lc), sorted(rc)), c.span)
+    r.instance("fallback:down-groups-present", n_down >= 1, "fallback() must still append the enabled-but-down nodes as a last resort", fb.span, nontrivial=False)
+
+
 def check(ctx):
     facts = ctx.facts("default")
-    for fn in (r1, r2, r3, r4):
+    for fn in (r1, r2, r3, r4, r5):
         try:
             fn(ctx, facts)
         except AnchorLost as ex:
